@@ -33,10 +33,11 @@ def _gen_parse(rnd, it):
 @contract('core.matcher.parse')
 def _(c):
     c.prop('C05', 'C18')
-    c.bounded('string-splitting recursive-descent parser with callable parameters and regular expressions: outside the verifier. At call sites: returns a new matcher '
-              'graph or raises RuntimeError, touches nothing that exists. On generated inputs (documented grammar rendered with arbitrary whitespace and redundant '
-              'brackets; random strings over the matcher alphabet and arbitrary Unicode): nothing but RuntimeError is raised, an accepted matcher can be printed, '
-              'simplified and evaluated on every sample message, and a matcher of the documented grammar is accepted and selects exactly what its abstract syntax says')
+    # the body (strip the colour, reject the empty text, hand on to the list parser) is verified; the two clauses below are native-only:
+    # on generated inputs (documented grammar rendered with arbitrary whitespace and redundant brackets; every string of one or two alphabet tokens;
+    # random strings over the matcher alphabet and arbitrary Unicode) an accepted matcher can be printed, simplified and evaluated on every sample
+    # message, and a matcher of the documented grammar is accepted and selects exactly what its abstract syntax says
+    c.types(text='str').returns(M_)
     c.ensures('usable(result)', 'an_accepted_matcher_can_be_evaluated_and_printed', native_only=True)
     c.ensures('documented_meaning_ok(text, result)', 'selects_what_the_documented_meaning_says', native_only=True)
     c.raises('RuntimeError', when=None, exact=False, native_when='not is_documented(text)')
